@@ -90,6 +90,8 @@ let op_of (tok : string) : op =
   | ["tfr"; i] -> OpTFinalizeReset (nat_of_string i)
   | ["tx"; i; n] -> OpTXof (nat_of_string i, n_of_string n)
   | ["txr"; i; n] -> OpTXofReset (nat_of_string i, n_of_string n)
+  (* trd:j:n: XofReader::read on an existing reader; traits.rs: its body is self.fill(buffer), see the C16_src theorems *)
+  | ["trd"; j; n] -> OpFill (nat_of_string j, n_of_string n)
   | ["dbg"; i] -> OpDbg (nat_of_string i)
   | ["rdbg"; j] -> OpReaderDbg (nat_of_string j)
   | ["zh"; i] -> OpZeroHasher (nat_of_string i)
